@@ -4,11 +4,11 @@ CFG = {
     "level": "proof",
     "race": True,
     "streams": [
-        {"mod": "app", "component": "c18socks", "driver": "c18", "n": {"quick": 2500, "thorough": 40000}},
-        {"mod": "app", "component": "c18http", "driver": "c18", "n": {"quick": 2500, "thorough": 25000}},
-        {"mod": "app", "component": "c18xform", "driver": "c18", "n": {"quick": 2500, "thorough": 60000}},
+        {"mod": "app", "component": "c18socks", "driver": "c18", "n": {"quick": 2000, "thorough": 40000}},
+        {"mod": "app", "component": "c18http", "driver": "c18", "n": {"quick": 2000, "thorough": 25000}},
+        {"mod": "app", "component": "c18xform", "driver": "c18", "n": {"quick": 1500, "thorough": 60000}},
         {"kind": "gotest", "mod": "app", "pkg": "./internal/proxymux", "run": "^TestVerifC18Mux$",
-         "component": "c18mux", "driver": "c18mux", "n": {"quick": 1200, "thorough": 20000}, "timeout": 3000},
+         "component": "c18mux", "driver": "c18mux", "n": {"quick": 800, "thorough": 20000}, "timeout": 3000},
     ],
     "rule": "c18socks/c18http: byte streams built from the protocol's own field structure (method lists around the right "
             "method, RFC 1929 sub-negotiation with right/wrong/empty credentials, CONNECT/UDP/other commands, every address "
